@@ -14,11 +14,16 @@
 //  hit       every returned distance is > 0 and x + d u lies on the curve inside the bounds:
 //            the solver iterates until the curve point is within r_b * 1e-8 of the line, so
 //            normal distance <= 3e-8 r_b + rounding
+//  self hit  with state on (start points on the curve to 1 ulp) no in-plane distance below 1e-7 r_b
+//            is reported (documented cut: 1e-6 r_b)
 //  flip      calc_sense differs at x + (d -+ h) u for transversal crossings away from the ends
 //  missed    marching along the ray in steps of r_b/16: a sign change of (a1 - a) between two
 //            consecutive samples, both clearly inside the annulus and with |a1 - a| < 1, proves
 //            a crossing in that step (|grad a1| = 1/r_b, so a1 moves by <= 1/16 per step); it
-//            must not end before the nearest returned distance
+//            must not end before the nearest returned distance.  Attribution of a proven miss:
+//            "involute:missed-nearer-crossing" (recorded known finding) only if a double-precision
+//            copy of the DOCUMENTED bracketing scheme loses the crossing as well, otherwise
+//            "involute:missed-crossing-that-documented-scheme-finds"
 //  normal    unit, equals (sin(t+a), -cos(t+a)) (mirrored for clockwise)
 //  translate SurfaceTranslator(Involute): sense at x + t equals the oracle at x
 #include "oracle/c12_quadric.hh"
@@ -193,6 +198,102 @@ static int classify_missed(InvO const& o, double const p[3], double const u3[3],
     return 2;
 }
 
+//! Reference copy of the DOCUMENTED root search of InvoluteSolver::operator() (comment block in
+//! InvoluteSolver.hh: brackets 0, beta - a (+ k pi), pi/i refinement after a same-sign bracket, one
+//! Illinois regula-falsi root per sign-changing bracket, tolerance r_b 1e-8, hit kept when tmin <= t
+//! <= tmax and it lies ahead), in double and with the same operation order, so that it takes the
+//! same sign decisions as the shipped code.  It is NOT an oracle: it carries the recorded defect
+//! (brackets that are not extrema of the root function).  Its only use is attribution of a miss
+//! that the independent marching oracle has already proven: a crossing that this scheme loses as
+//! well is the recorded known finding; a crossing that this scheme finds but the code under test
+//! does not is a different failure and gets its own signature.
+//! Returns the smallest 3-D distance the documented scheme reports (infinity if none); hits closer
+//! than `drop` (2-D) are ignored, as the documented on-surface rule does.
+static double documented_scheme_nearest(InvO const& o, Involute const& s, double const p[3], double const u3[3],
+                                        bool on)
+{
+    auto dat = s.data();
+    double const rb = std::fabs(dat[2]), a = dat[3], tmin = dat[4], tmax = dat[5];
+    double const pi = constants::pi;
+    double x = p[0] - dat[0], y = p[1] - dat[1], u = u3[0], v = u3[1];
+    if (o.right)
+    {
+        x = -x;
+        u = -u;
+    }
+    if (u == 0 && v == 0)
+        return INFINITY;
+    double convert = 1 / std::sqrt(v * v + u * u);
+    u *= convert;
+    v *= convert;
+    double beta = (u != 0) ? std::atan(-v / u) : (-v < 0 ? pi * -0.5 : pi * 0.5);
+    double t_lower = 0, t_upper = beta - a;
+    t_upper += std::max(0.0, -std::floor(t_upper / pi)) * pi;
+    int i = 1;
+    auto f = [&](double t) {
+        double al = u * std::sin(t + a) - v * std::cos(t + a);
+        double be = t * (u * std::cos(t + a) + v * std::sin(t + a));
+        return rb * (al - be) + x * v - y * u;
+    };
+    auto sgn = [](double z) { return (0 < z) - (z < 0); };
+    double const tolr = rb * 1e-8;
+    double const drop = on ? rb * 1e-8 * 100 : 0;
+    double best = INFINITY;
+    int guard = 0;
+    while (t_lower < tmax && ++guard < 100000)
+    {
+        double fl = f(t_lower), fu = f(t_upper);
+        if (sgn(fl) != sgn(fu))
+        {
+            double left = t_lower, right = t_upper, f_left = fl, f_right = fu, f_root = 1, root = 0;
+            int side = 0, remaining = 50;
+            do
+            {
+                root = (left * f_right - right * f_left) / (f_right - f_left);
+                f_root = f(root);
+                if (sgn(f_left) == sgn(f_root))
+                {
+                    left = root;
+                    f_left = f_root;
+                    if (side == -1)
+                        f_right *= 0.5;
+                    side = -1;
+                }
+                else
+                {
+                    right = root;
+                    f_right = f_root;
+                    if (side == 1)
+                        f_left *= 0.5;
+                    side = 1;
+                }
+            } while (std::fabs(f_root) > tolr && --remaining > 0);
+            double t = root;
+            if (t >= tmin && t <= tmax)
+            {
+                double tt = std::max(t, 0.0);
+                double ang = tt + a;
+                double px = rb * (std::cos(ang) + tt * std::sin(ang));
+                double py = rb * (std::sin(ang) - tt * std::cos(ang));
+                double up = px - x, vp = py - y;
+                double dot = u * up + v * vp;
+                double dist = std::sqrt(up * up + vp * vp) * sgn(dot);
+                if (dist > drop)
+                    best = std::min(best, convert * dist);
+            }
+            t_lower = t_upper;
+            t_upper += pi;
+        }
+        else
+        {
+            t_lower = t_upper;
+            t_upper += pi / i;
+            ++i;
+        }
+    }
+    return best;
+}
+
 static void check_inv_ray(ICtx& cx, Involute const& s, InvO const& o, std::string const& cid,
                           double const p[3], double const u[3], bool on)
 {
@@ -216,6 +317,22 @@ static void check_inv_ray(ICtx& cx, Involute const& s, InvO const& o, std::strin
             continue;
         }
         dmin = std::min<ld>(dmin, d);
+        // documented (InvoluteSolver.hh, tol_point): started ON the curve, hits whose in-plane distance
+        // is below 100 tol r_b = 1e-6 r_b are the start point itself and are dropped.  The start points
+        // used with state 'on' are on the curve to 1 ulp and the curve does not come back within
+        // 2 pi r_b of itself, so an in-plane distance below 1e-7 r_b (ten times under the documented
+        // cut, far above the 1e-16 rounding of the product) can only be the start point's own root
+        if (on && ld(d) * u2 < 1e-7L * o.rb)
+        {
+            cx.tags["inv:on-surface-self-hit"]++;
+            cx.viol("involute:on-surface-self-hit", cid, [&] {
+                return inv_str(s)
+                       + fmt(" pos=%s dir=%s state=on distance[%d]=%s: in-plane distance %Lg is below 1e-7 r_b "
+                             "(documented: hits within 1e-6 r_b of an on-surface start are not reported)",
+                             p3(p).c_str(), p3(u).c_str(), k, vf::dstr(d).c_str(), ld(d) * u2);
+            });
+            continue;
+        }
         ld hx = ld(p[0]) + ld(d) * u[0], hy = ld(p[1]) + ld(d) * u[1];
         InvEval e = inv_eval(o, hx, hy);
         ld scale = fabsl(ld(p[0]) - o.ox) + fabsl(ld(p[1]) - o.oy) + d + o.rb * (1 + o.tmax);
@@ -353,8 +470,16 @@ static void check_inv_ray(ICtx& cx, Involute const& s, InvO const& o, std::strin
                                                             "inv:missed:cause-uncertain",
                                                             "inv:missed:single-root-bracket"};
                     cx.tags[cause_tag[cause]]++;
-                    cx.viol(cause == 3 ? "involute:missed-crossing-inside-searched-bracket"
-                                       : "involute:missed-nearer-crossing",
+                    // attribution (see documented_scheme_nearest): "involute:missed-nearer-crossing" is
+                    // kept for crossings that the documented bracketing scheme itself loses
+                    double dref = documented_scheme_nearest(o, s, p, u, on);
+                    bool scheme_loses_it_too = sk < ld(dref) - 1e-6L * (o.rb + e.r);
+                    cx.tags[scheme_loses_it_too ? "inv:missed:documented-scheme-loses-it-too"
+                                                : "inv:missed:documented-scheme-finds-it"]++;
+                    char const* sig = !scheme_loses_it_too ? "involute:missed-crossing-that-documented-scheme-finds"
+                                      : cause == 3         ? "involute:missed-crossing-inside-searched-bracket"
+                                                           : "involute:missed-nearer-crossing";
+                    cx.viol(sig,
                             cid, [&] {
                         return inv_str(s)
                                + fmt(" pos=%s dir=%s state=%s: a1-a changes sign between path lengths %.12Lg and "
